@@ -34,7 +34,7 @@ pub fn cases(thorough: bool) -> Vec<Case> {
     let mut v = Vec::new();
     for hops in [0u32, 1, 2, 3] {
         for sleep_ms in [0u64, 40, 600, 6000] {
-            for timeout_ms in [1000u64, 10_000] {
+            for timeout_ms in [0u64, 1000, 10_000] {
                 for delay in [0u64, 300, 4000] {
                     for pool in [true, false] {
                         for h2 in [false, true] {
